@@ -353,6 +353,12 @@ func (i Interval) Expanded(margin float64) Interval {
 	if margin >= 0 && !result.ContainsInterval(i) {
 		return FullInterval()
 	}
+	// Likewise the emptiness test can miss a shrinking that leaves nothing by
+	// a rounding error: the endpoints then cross and the result would be an
+	// inverted, nearly full interval.
+	if margin < 0 && !i.ContainsInterval(result) {
+		return EmptyInterval()
+	}
 	return result
 }
 
